@@ -4,6 +4,7 @@ import (
 	"fmt"
 	"go/token"
 	"go/types"
+	"sort"
 	"strings"
 
 	"golang.org/x/tools/go/ssa"
@@ -124,7 +125,7 @@ func ruleNoInputWrite(c *Ctx, rule string, roots []*ssa.Function) {
 func ruleRegistryWriters(c *Ctx, rule string) {
 	r := c.Run
 	info := effectsFor(c.Prog)
-	r.Rule(rule, "the package-level maps GetMACPayloadAndSize reads (the MAC payload registries) are written after init by RegisterProprietaryMACCommand only (itself or helpers only it calls), and only with macPayloadMutex write-locked; which pair a registration changes is decided by R9 through the accessor")
+	r.Rule(rule, "the package-level maps GetMACPayloadAndSize reads (the MAC payload registries) are written after init by RegisterProprietaryMACCommand only (itself or helpers only it calls), and only with the registry's package-level mutex write-locked; which pair a registration changes is decided by R9 through the accessor")
 	reg := c.Prog.SSAFunc("", "RegisterProprietaryMACCommand")
 	get := c.Prog.SSAFunc("", "GetMACPayloadAndSize")
 	if reg == nil || get == nil {
@@ -219,17 +220,33 @@ func ruleRegistryWriters(c *Ctx, rule string) {
 			ins := a.Instr
 			fn := f
 			held := false
-			var state string
+			var state, mutexName string
 			for depth := 0; depth < 4; depth++ {
 				li := locks[fn]
 				if li == nil {
 					li = effects.Locks(fn)
 					locks[fn] = li
 				}
-				st := li.HeldBefore(ins)["G:macPayloadMutex"]
-				state = st.Held.String()
-				if st.Held == effects.HeldWrite {
-					held = true
+				// whichever package-level mutex guards the registry (that every access holds one common mutex is C10-R7)
+				state = "not held"
+				hb := li.HeldBefore(ins)
+				var mnames []string
+				for m := range hb {
+					mnames = append(mnames, m)
+				}
+				sort.Strings(mnames)
+				for _, m := range mnames {
+					if !strings.HasPrefix(m, "G:") {
+						continue
+					}
+					if st := hb[m]; st.Held == effects.HeldWrite {
+						held = true
+						mutexName = strings.TrimPrefix(m, "G:")
+					} else if st.Held.String() != "" && state == "not held" {
+						state = strings.TrimPrefix(m, "G:") + " is " + st.Held.String()
+					}
+				}
+				if held {
 					break
 				}
 				if fn == reg {
@@ -243,9 +260,9 @@ func ruleRegistryWriters(c *Ctx, rule string) {
 				fn = n.In[0].Caller.Func
 			}
 			if held {
-				r.OK(rule, key, pos, "written by RegisterProprietaryMACCommand under macPayloadMutex.Lock", a.Desc+"; Lock held", true)
+				r.OK(rule, key, pos, "written by RegisterProprietaryMACCommand under the write lock of the registry's mutex", a.Desc+"; "+mutexName+".Lock held", true)
 			} else {
-				r.Bad(rule, key, pos, "update under macPayloadMutex.Lock", "macPayloadMutex is "+state+" at the update")
+				r.Bad(rule, key, pos, "update under the write lock of a package-level mutex", "no package-level mutex is write-locked at the update ("+state+")")
 			}
 		}
 	}
